@@ -328,9 +328,16 @@ class World:
         if self.ds is None:
             return {"k": "open"}
         hist = getattr(self, "op_hist", [])
+        if self.k["klass"] == "weather" and hist[-1:] in (["open"], ["heal"]) and r.random() < 0.35:
+            # (before anything was listed: afterwards the listing is cached and the window is closed)
+            return {"k": "verify"}
         if self.k["klass"] == "weather" and hist[-1:] == ["verify"] and r.random() < 0.7:
             # the window between a verified availability and the first use of the basin
-            return {"k": "weather", "host": r.randrange(4), "state": r.choice(["refuse", "down", "dnsfail", "flaky"]), "node": r.randrange(6),
+            root = self.k["root"] % len(self.nodes)
+            used = sorted({{"http": e["host"], "s3": 2, "dcor": 3}.get(e["kind"], e["host"]) for e in self.edges
+                           if e["src"] == root and e["kind"] in ("http", "s3", "dcor")})
+            host = r.choice(used) if used and r.random() < 0.75 else r.randrange(4)
+            return {"k": "weather", "host": host, "state": r.choice(["refuse", "down", "dnsfail", "flaky"]), "node": r.randrange(6),
                     "fseed": r.randrange(1 << 20)}
         if self.k["klass"] == "weather" and hist[-2:] == ["verify", "weather"] and r.random() < 0.7:
             return r.choice([{"k": "listing", "what": "features_basin"}, {"k": "contains", "feat": r.choice(FEATS)},
